@@ -7,7 +7,7 @@ from .engine import (Mir, Engine, IntV, BoolV, StructV, EnumV, RefV, Opaque, Cel
 
 VERIF = '/verif'
 CACHE = VERIF + '/.cache'
-MIRDIR = CACHE + '/mir'
+MIRDIR = os.environ.get('VERIF_MIRDIR', CACHE + '/mir')
 REPO = os.environ.get('VERIF_REPO', '/repo')
 
 STD_OPAQUE = [r'sol_log', r'fmt::', r'^format$', r'MarginfiError', r'anchor_lang::error', r'to_string', r'Arguments',
